@@ -521,6 +521,29 @@ impl<Front: SocketHandler> ConnectionH1<Front> {
             let edits = std::mem::take(&mut parts.context.headers_response);
             super::shared::apply_response_header_edits(kawa, &edits);
         }
+        // HTTP/1.1 only carries trailers after a chunked body (RFC 9112 §7.1.2).
+        // On a Content-Length framed message, the trailer fields an H2 peer sent
+        // and the empty line closing them would be written after the body and be
+        // read by the H1 peer as the start of the next message: drop them here
+        // (`pkawa::handle_trailer` keeps them for H2 peers). Head fields are the
+        // ones between the status line and the first `end_header` flag.
+        if matches!(kawa.body_size, kawa::BodySize::Length(_)) {
+            let mut in_head = false;
+            for block in kawa.blocks.iter_mut() {
+                match block {
+                    kawa::Block::StatusLine => in_head = true,
+                    kawa::Block::Header(trailer) if !in_head => trailer.elide(),
+                    kawa::Block::Flags(flags) if flags.end_header => {
+                        if in_head {
+                            in_head = false;
+                        } else {
+                            flags.end_header = false;
+                        }
+                    }
+                    _ => {}
+                }
+            }
+        }
         kawa.prepare(&mut kawa::h1::BlockConverter);
         let mut io_slices = Vec::new();
         for block in kawa.out.iter() {
